@@ -45,7 +45,9 @@ def test_rangemodel():
     check("hex-with-leading-zero", p("0x0a"), [(10, 10)])
     check("octal-prefix", p("0o17"), M.OUTSIDE)
     check("digit-group", p("1_0"), M.OUTSIDE)
-    check("prefix", p("u'a'"), M.OUTSIDE)
+    check("unicode-prefix", p("u'a'"), [(97, 97)])
+    check("unicode-prefix-escape", p('u"\\u00dc"'), [(220, 220)])
+    check("bytes-prefix", p("b'a'"), M.OUTSIDE)
     check("unknown-name", p("abc"), M.OUTSIDE)
     check("two-limits", p("1 2"), M.OUTSIDE)
     check("two-open", p("...1, 5..."), [(None, 1), (5, None)])
